@@ -51,6 +51,17 @@ func scnHBFault(kname string, k kfn, i int, kind string) *Scenario {
 	return s
 }
 
+// scnHBFaultSlowDemote: as hbfault, but the OnDemote callback takes 300 ms, during
+// which the instance (alone in the group) re-acquires the vacant key; the rest of the run
+// watches the second term.
+func scnHBFaultSlowDemote(kname string, k kfn, i int, kind string) *Scenario {
+	s := scnHBFault(kname, k, i, kind)
+	s.Name += "/slow-ondemote"
+	s.Insts[0].DemoteDur = 300 * ms
+	s.Horizon += s.TTL + s.H
+	return s
+}
+
 func c03Plan(tier string) []PlanItem {
 	d := 1
 	if tier == "thorough" {
@@ -69,6 +80,9 @@ func c03Plan(tier string) []PlanItem {
 					dd = 0
 				}
 				items = append(items, PlanItem{scnHBFault(kk.n, kk.k, i, kind), dd})
+				if (kind == "deleted" || kind == "expired") && kk.n != "K3" && i <= 2 {
+					items = append(items, PlanItem{scnHBFaultSlowDemote(kk.n, kk.k, i, kind), dd})
+				}
 			}
 		}
 	}
@@ -135,6 +149,34 @@ func oracleC03(r *Result) ([]Violation, bool) {
 			s.add(limit, sig+"/still-leader", "%s: A still reports leadership after %v (%s); demotion edge at %v", kind, limit, why, tDem)
 		} else if tOnDem < 0 || tOnDem > limit {
 			s.add(limit, sig+"/ondemote-late", "%s: OnDemote had not run by %v (%s); it ran at %v", kind, limit, why, tOnDem)
+		}
+	}
+	// general clause, every term: an instance does not keep claiming for longer than
+	// H + 2T while the group's live record is absent or somebody else's
+	{
+		var since time.Duration = -1
+		for _, e := range r.Trace {
+			if e.K != "q" {
+				continue
+			}
+			claiming := false
+			for _, sn := range e.Snap {
+				if sn.I == "A" && sn.IsLeader && !sn.Cut {
+					claiming = true
+				}
+			}
+			backed := e.Rec != nil && e.Rec.ID == "A" && e.Rec.By == "A"
+			if claiming && !backed {
+				if since < 0 {
+					since = e.T
+				}
+				if e.T-since > H+2*T+ms {
+					s.add(e.T, "claim-outlives-record", "%s: A has been reporting leadership since %v without a live record of its own (now %v, bound H+2T = %v)", kind, since, e.T, H+2*T)
+					break
+				}
+			} else {
+				since = -1
+			}
 		}
 	}
 	if r.Scn.Tags["c03"] == "change" {
